@@ -20,7 +20,7 @@ func init() {
 	register(&Check{
 		ID:    "C01",
 		Level: "model_checking",
-		Rule: "product: enabled set E (non-empty subset of 3 keys quick / 4 keys thorough) x spelling of the stored key {hex, 0x-hex, upper-hex, mixed} x threshold 1..min(|E|,3) x message {empty, 116-byte header, burn message} " +
+		Rule: "product: enabled set E (non-empty subset of 3 keys quick / 4 keys thorough) x spelling of the stored key {hex, 0x-hex, upper-hex, mixed, and one key stored under two spellings at once} x threshold 1..min(|E|,3) x message {empty, 116-byte header, burn message} " +
 			"x ALL sequences of 0..T+1 atoms, atoms per key: honest v0/1, legacy v27/28, high-s twin, honest over another message; plus an unknown key, 65 zero bytes, a valid signature with v=2, a 64-byte truncation and a 66-byte padding (misaligning later chunks); " +
 			"verifier result == reference reading (iff); stateful leg: every (E,T,spelling) reached by enable/threshold transactions and the same atoms submitted through receive-message and replace-message; " +
 			"states = configurations, transitions = verifier/handler executions; distinct_nontrivial = distinct (configuration, atom sequence) pairs whose total length equals 65*T (i.e. that reach signature checking)",
@@ -77,6 +77,7 @@ type c01Config struct {
 	Spell  int   // 0 hex, 1 0x, 2 upper, 3 mixed (per key index)
 	T      uint32
 	NKeys  int
+	Dup    bool // the first key of E is additionally stored under a second accepted spelling
 }
 
 func (c c01Config) attesters() []cctptypes.Attester {
@@ -88,6 +89,13 @@ func (c c01Config) attesters() []cctptypes.Attester {
 		}
 		out = append(out, cctptypes.Attester{Attester: Keys[i].Spell(sp)})
 	}
+	if c.Dup {
+		sp := c.Spell
+		if sp == 3 {
+			sp = c.E[0] % 3
+		}
+		out = append(out, cctptypes.Attester{Attester: Keys[c.E[0]].Spell((sp + 1) % 3)})
+	}
 	// store order = sorted by key string (as the KV store would iterate)
 	sort.Slice(out, func(a, b int) bool { return out[a].Attester+"/" < out[b].Attester+"/" })
 	return out
@@ -97,6 +105,9 @@ func (c c01Config) String() string {
 	var names []string
 	for _, i := range c.E {
 		names = append(names, Keys[i].Name)
+	}
+	if c.Dup {
+		names = append(names, names[0]+"(second spelling)")
 	}
 	return fmt.Sprintf("E=%v spelling=%d T=%d", names, c.Spell, c.T)
 }
@@ -117,6 +128,11 @@ func c01Configs(tier string) []c01Config {
 		for t := 1; t <= len(E) && t <= maxT; t++ {
 			for sp := 0; sp < 4; sp++ {
 				out = append(out, c01Config{E: E, Spell: sp, T: uint32(t), NKeys: nkeys})
+			}
+			// one key stored under two spellings: two registry entries, still one signer
+			out = append(out, c01Config{E: E, Spell: 0, T: uint32(t), NKeys: nkeys, Dup: true})
+			if len(E) < nkeys && t == len(E) && t < maxT {
+				out = append(out, c01Config{E: E, Spell: 1, T: uint32(t + 1), NKeys: nkeys, Dup: true}) // threshold = number of entries > number of distinct keys
 			}
 		}
 	}
